@@ -483,6 +483,7 @@ class WorkerComms:
         :param worker_id: Worker ID
         """
         self._results_received[worker_id] = 0
+        self._results_added[worker_id] = 0
 
     def wait_for_all_results_received(self, worker_id: int) -> None:
         """
